@@ -75,6 +75,21 @@ func (e *c09Env) replayBuf(bh Behaviour) bool {
 	}
 	var lastSig []byte
 	var partials, bsigs [][]byte
+	// returned signatures are values: every slice a scheme object handed out is kept as returned, with a private
+	// copy, and compared again at the end of the behaviour
+	var handedRet, handedCp [][]byte
+	keep := func(b []byte) {
+		handedRet = append(handedRet, b)
+		handedCp = append(handedCp, clone(b))
+	}
+	defer func() {
+		for i := range handedRet {
+			if !bytes.Equal(handedRet[i], handedCp[i]) {
+				e.violate("buf/audit/returned-signature-changed", "a signature slice handed out by a long-lived scheme object was changed by a later call", bh, map[string]any{"index": i})
+				return
+			}
+		}
+	}()
 	bad := func(step int, act, kind, what string, extra map[string]any) {
 		d := map[string]any{"step": step}
 		for k, v := range extra {
@@ -121,6 +136,7 @@ func (e *c09Env) replayBuf(bh Behaviour) bool {
 				bad(si, act, "not-the-signature-of-the-current-contents", "bls Sign on a reused scheme object / reused buffer did not sign what the buffer holds now", map[string]any{"err": fmt.Sprint(err)})
 			}
 			lastSig = sg
+			keep(sg)
 		case "BufVerify":
 			addSnap("signature", lastSig)
 			pm, stack, pan = core.Try(func() {
@@ -145,6 +161,7 @@ func (e *c09Env) replayBuf(bh Behaviour) bool {
 					bad(si, act, "not-the-partial-of-the-current-contents", "tbls Sign on a reused scheme object / reused buffer did not sign what the buffer holds now", map[string]any{"err": fmt.Sprint(err)})
 				}
 				partials = append(partials, p)
+				keep(p)
 			}
 		case "BufRecover":
 			addSnap("partial", partials...)
@@ -179,6 +196,7 @@ func (e *c09Env) replayBuf(bh Behaviour) bool {
 					bad(si, act, "not-the-signature-of-the-current-contents", "bdn Sign on a reused scheme object / reused buffer did not sign what the buffer holds now", map[string]any{"err": fmt.Sprint(err)})
 				}
 				bsigs = append(bsigs, p)
+				keep(p)
 			}
 		case "BufBdnVerify":
 			addSnap("signature", bsigs...)
